@@ -38,6 +38,9 @@ type taskCase struct {
 	Overlap    bool   `json:"overlap_probe,omitempty"`
 	AsStage    bool   `json:"as_stage,omitempty"`
 	StageAllow bool   `json:"stage_allow_failure,omitempty"` // allow_failure of the stage (not of the task) when run as a stage
+	// SkippedSibling (as a stage): another stage of the pipeline uses the same task object and is switched off by a
+	// stage-level condition before this one starts
+	SkippedSibling bool `json:"skipped_sibling_stage,omitempty"`
 	// Format: output format of the runner; every command then also runs an external program whose coloured output
 	// arrives in two writes (what the decorators do with it must not change which commands run)
 	Format string `json:"format,omitempty"`
@@ -185,9 +188,12 @@ func runTaskCase(a args, tcase taskCase, idx int, shared *runner.TaskRunner) {
 		r.Stdout = &so
 		dep := task.FromCommands(tok("dependant"))
 		dep.Name = "dependant"
-		g, gerr := scheduler.NewExecutionGraph(
-			&scheduler.Stage{Name: "s", Task: t, AllowFailure: tcase.StageAllow},
-			&scheduler.Stage{Name: "d", Task: dep, DependsOn: []string{"s"}})
+		sts := []*scheduler.Stage{{Name: "s", Task: t, AllowFailure: tcase.StageAllow}, {Name: "d", Task: dep, DependsOn: []string{"s"}}}
+		if tcase.SkippedSibling {
+			sts[0].DependsOn = []string{"z"}
+			sts = append(sts, &scheduler.Stage{Name: "z", Task: t, Condition: "/bin/false"})
+		}
+		g, gerr := scheduler.NewExecutionGraph(sts...)
 		if gerr != nil {
 			out.Viol("C05", "acyclic-rejected", "two-stage chain rejected", tcase)
 			return
@@ -556,7 +562,7 @@ func modeTask(a args) {
 						for st := 0; st < 3; st++ {
 							f := []int{0, 0, 0}
 							f[pos] = rnd.Range(1, 255)
-							cases = append(cases, taskCase{Commands: 3, Fail: f, How: rnd.Pick([]string{"exit", "subshell", "sh"}), Allow: allow, After: af, Before: b, Variations: rnd.Intn(3), AsStage: st > 0, StageAllow: st == 2})
+							cases = append(cases, taskCase{Commands: 3, Fail: f, How: rnd.Pick([]string{"exit", "subshell", "sh"}), Allow: allow, After: af, Before: b, Variations: rnd.Intn(3), AsStage: st > 0, StageAllow: st == 2, SkippedSibling: st > 0 && (pos+af+b)%2 == 0})
 						}
 					}
 				}
